@@ -475,7 +475,7 @@ mod verif_replay_interp {
     /// C09: while an event is processed, an attempt to overwrite _event (with '=' or with '?=') raises error.execution
     #[test]
     fn verif_replay_interp_event_variable_read_only() {
-        for script in ["_event = 'x'", "_event ?= 'x'", "_event.name = 'x'"] {
+        for script in ["_event = 'x'", "_event ?= 'x'", "_event.name = 'x'", "_event.name ?= 'x'", "_event.extra ?= 1", "_event['extra'] ?= 1", "_event.data = 5"] {
             let doc = format!(
                 r###"<scxml xmlns="http://www.w3.org/2005/07/scxml" initial="s0" version="1.0" datamodel="rfsm-expression">
  <state id="s0">
